@@ -6,17 +6,17 @@ import (
 	"verifharness/kit"
 )
 
-const rule = "histories: a mesh recipe (library constructors, marching-cubes lattices, triangle soups with shared, duplicated and degenerate faces; 2D and 3D) in one of five index states plus 2-16 per-goroutine query lists, run at GOMAXPROCS 1-8 under the race detector and compared answer by answer with a sequential run on an identically built mesh; the same for colliders, SDFs, solids, hierarchies, UV lookups and render objects derived from one mesh; internally parallel routines (meshers, rasteriser, renderers, k-means, height-map filling, caches, OBJ export) at several GOMAXPROCS values against their single-worker result or a reference model. Non-trivial: at least two goroutines issue an index-needing query on a non-empty mesh (group 1), at least two goroutines get a non-empty answer (group 2), the routine ran with more than one worker on a non-empty input (group 3). Distinct: hash of the JSON case."
+const rule = "histories: a mesh recipe (library constructors, marching-cubes lattices, triangle soups with shared, duplicated and degenerate faces; 2D and 3D) in one of five index states plus 2-16 per-goroutine query lists, run at GOMAXPROCS 1-8 under the race detector and compared answer by answer with a sequential run on an identically built mesh; the same for colliders, SDFs, solids, hierarchies, UV lookups and render objects derived from one mesh; internally parallel routines (meshers incl. dual contouring with MaxGos/BufferSize and interior points, rasteriser, renderers, k-means Iterate/Assign, height-map filling, caches, OBJ export) at several GOMAXPROCS values against their single-worker result or a reference model; one renderer value shared by 2-3 goroutines rendering at once. Non-trivial: at least two goroutines issue an index-needing query on a non-empty mesh (group 1), at least two goroutines get a non-empty answer (group 2), the routine ran with more than one worker on a non-empty input (group 3). Distinct: hash of the JSON case."
 
 func TestProp(t *testing.T) {
 	kit.Run(t, "C13", rule,
 		kit.Clause[meshCase]{Name: "C13/mesh3d/queries", Quick: 400, Thorough: 12000, Gen: genMeshCase, Check: checkMesh, Fresh: true},
-		kit.Clause[mesh2Case]{Name: "C13/mesh2d/queries", Quick: 400, Thorough: 12000, Gen: genMesh2Case, Check: checkMesh2, Fresh: true},
+		kit.Clause[mesh2Case]{Name: "C13/mesh2d/queries", Quick: 600, Thorough: 12000, Gen: genMesh2Case, Check: checkMesh2, Fresh: true},
 		kit.Clause[derivedCase]{Name: "C13/derived3d/queries", Quick: 300, Thorough: 9000, Gen: genDerivedCase, Check: checkDerived, Fresh: true},
-		kit.Clause[derived2Case]{Name: "C13/derived2d/queries", Quick: 300, Thorough: 9000, Gen: genDerived2Case, Check: checkDerived2, Fresh: true},
-		kit.Clause[mesherCase]{Name: "C13/parallel/meshers", Quick: 150, Thorough: 4000, Gen: genMesherCase, Check: checkMesher, Fresh: true},
+		kit.Clause[derived2Case]{Name: "C13/derived2d/queries", Quick: 400, Thorough: 9000, Gen: genDerived2Case, Check: checkDerived2, Fresh: true},
+		kit.Clause[mesherCase]{Name: "C13/parallel/meshers", Quick: 200, Thorough: 4000, Gen: genMesherCase, Check: checkMesher, Fresh: true},
 		kit.Clause[rasterCase]{Name: "C13/parallel/rasterizer", Quick: 100, Thorough: 3000, Gen: genRasterCase, Check: checkRaster, Fresh: true},
-		kit.Clause[renderCase]{Name: "C13/parallel/renderers", Quick: 100, Thorough: 3000, Gen: genRenderCase, Check: checkRender, Fresh: true},
+		kit.Clause[renderCase]{Name: "C13/parallel/renderers", Quick: 150, Thorough: 3000, Gen: genRenderCase, Check: checkRender, Fresh: true},
 		kit.Clause[kmeansCase]{Name: "C13/parallel/kmeans", Quick: 200, Thorough: 6000, Gen: genKMeansCase, Check: checkKMeans, Fresh: true},
 		kit.Clause[heightCase]{Name: "C13/parallel/heightmap", Quick: 100, Thorough: 3000, Gen: genHeightCase, Check: checkHeight, Fresh: true},
 		kit.Clause[cacheCase]{Name: "C13/parallel/caches", Quick: 200, Thorough: 6000, Gen: genCacheCase, Check: checkCache, Fresh: true},
